@@ -65,6 +65,12 @@ static std::vector<Path> paths() {
     p.push_back({"cbor", "map-indefinite", [](int d) { return rep({0xbf, 0x61, 'a'}, d, {0x00}, {0xff}); }});
     p.push_back({"cbor", "tagged-array", [](int d) { return rep({0xd8, 0x63, 0x81}, d, {0x00}, {}); }});
     p.push_back({"cbor", "stringref-namespace", [](int d) { return rep({0xd9, 0x01, 0x00, 0x81}, d, {0x00}, {}); }});
+    // three multi-dimensional arrays (tag 40, classical array storage, depth at most 4) as siblings in front of the deep chain: the depth
+    // bookkeeping of one container-opening path must not leak into the rest of the document
+    p.push_back({"cbor", "array-after-multi-dim-siblings", [](int d) { if (d < 6) return rep({0x81}, d, {0x00}, {}); Bytes md = {0xd8, 0x28, 0x82, 0x82, 0x02, 0x02, 0x84, 1, 2, 3, 4}; Bytes b = {0x84};
+        for (int i = 0; i < 3; ++i) b.insert(b.end(), md.begin(), md.end()); Bytes c = rep({0x81}, d - 1, {0x00}, {}); b.insert(b.end(), c.begin(), c.end()); return b; }});
+    p.push_back({"cbor", "array-after-typed-array-siblings", [](int d) { if (d < 6) return rep({0x81}, d, {0x00}, {}); Bytes ta = {0xd8, 0x40, 0x43, 1, 2, 3}; Bytes b = {0x84};
+        for (int i = 0; i < 3; ++i) b.insert(b.end(), ta.begin(), ta.end()); Bytes c = rep({0x81}, d - 1, {0x00}, {}); b.insert(b.end(), c.begin(), c.end()); return b; }});
     p.push_back({"msgpack", "fixarray", [](int d) { return rep({0x91}, d, {0x00}, {}); }});
     p.push_back({"msgpack", "array16", [](int d) { return rep({0xdc, 0x00, 0x01}, d, {0x00}, {}); }});
     p.push_back({"msgpack", "array32", [](int d) { return rep({0xdd, 0, 0, 0, 1}, d, {0x00}, {}); }});
@@ -135,13 +141,14 @@ static void encoder_cell(int L, int kind) {
     for (int dd = -1; dd <= 1; ++dd) {
         int d = L + dd; if (d < 0) continue;
         json v = nested_value(d, kind);
-        for (int f = 0; f < 5; ++f) {
-            static const char* fn[] = {"json", "cbor", "msgpack", "ubjson", "bson"};
+        for (int f = 0; f < 6; ++f) {
+            static const char* fn[] = {"json", "cbor", "msgpack", "ubjson", "bson", "json-pretty"};
             if (f == 4 && (kind == 0 || d == 0)) continue;     // BSON root must be a document
             std::error_code ec;
             try {
                 switch (f) {
-                case 0: { std::string s; json_options o; o.max_nesting_depth(L); if (dd & 1) v.dump(s, o, indenting::indent, ec); else v.dump(s, o, indenting::no_indent, ec); break; }
+                case 0: { std::string s; json_options o; o.max_nesting_depth(L); v.dump(s, o, indenting::no_indent, ec); break; }     // compact encoder, every depth
+                case 5: { std::string s; json_options o; o.max_nesting_depth(L); v.dump(s, o, indenting::indent, ec); break; }        // pretty encoder, every depth
                 case 1: { Bytes b; cbor::cbor_options o; o.max_nesting_depth(L); cbor::cbor_bytes_encoder e(b, o); v.dump(e, ec); break; }
                 case 2: { Bytes b; msgpack::msgpack_options o; o.max_nesting_depth(L); msgpack::msgpack_bytes_encoder e(b, o); v.dump(e, ec); break; }
                 case 3: { Bytes b; ubjson::ubjson_options o; o.max_nesting_depth(L); ubjson::ubjson_bytes_encoder e(b, o); v.dump(e, ec); break; }
